@@ -49,7 +49,7 @@ pub const GRID: &[&str] = &[
 ];
 
 fn gen_part(t: &mut Tape) -> String {
-    match t.weighted(&[6, 2, 1, 1, 1, 1]) {
+    match t.weighted(&[6, 2, 1, 1, 1, 1, 2]) {
         0 => t.u32_biased().to_string(),
         1 => GRID[t.choose(GRID.len())].to_string(),
         2 => format!("{}", t.u32_biased() as u64 + u32::MAX as u64),
@@ -58,10 +58,16 @@ fn gen_part(t: &mut Tape) -> String {
             t.string_of(A, 4)
         }
         4 => format!("{}{}", "0".repeat(t.choose(12)), t.u32_biased()),
-        _ => {
+        5 => {
             // long digit strings
             const D: &[char] = &['0', '1', '4', '9'];
             t.string_of(D, 24)
+        }
+        _ => {
+            // long non-numeric parts: digits and letters of one to four bytes at every offset
+            const A: &[char] = &['1', '0', '9', 'a', '\u{e9}', '\u{df}', '\u{20ac}', '\u{4e2d}', '\u{1f600}', '\u{663}', ' ', '\u{0}', '-'];
+            let digits = t.choose(14);
+            format!("{}{}", "1234567890123".chars().take(digits).collect::<String>(), t.string_of(A, 24))
         }
     }
 }
@@ -80,7 +86,7 @@ fn gen_string(t: &mut Tape) -> String {
             s
         }
         _ => {
-            const A: &[char] = &['0', '1', '2', '9', '.', '.', '+', '-', ' ', 'a', 'x'];
+            const A: &[char] = &['0', '1', '2', '9', '.', '.', '+', '-', ' ', 'a', 'x', '\u{e9}', '\u{20ac}', '\u{1f600}'];
             t.string_of(A, 40)
         }
     }
@@ -95,6 +101,9 @@ fn check_string(s: &str, want_sample: bool) -> CaseResult {
     let got = Version::from_str(s);
     let want = reference(s);
     let mut classes = vec!["string"];
+    if s.split('.').any(|p| p.len() > 10 && !p.is_ascii()) {
+        classes.push("long_non_ascii_part");
+    }
     let parts = s.split('.').count();
     let mut nontrivial = parts >= 2;
     if !ambiguous {
